@@ -61,7 +61,15 @@ def run(ctx):
         if e.strip() == gl.strip(): continue
         if name in ('get_distance', 'discipline_sort_key', 'text_discipline_sort_key') and e.startswith('ok') and gl.startswith('ok') \
                 and re.search(r'\.|[yY]', s) and ('none' in e) == ('none' in gl):
-            continue          # non-integral quantity: int(1000*float) truncates in binary; only "a value" is compared
+            # non-integral quantity: int(1000*float) truncates in binary, at most 1 m per leg (<= 99 legs) below the exact floor
+            def num(line, which):
+                if which == 'text_discipline_sort_key':
+                    t = CC.uncps(line[3:]); parts = t.split('_')
+                    return int(parts[1]) if len(parts) > 2 and parts[1].isdigit() else None
+                f = line.split()
+                return int(f[-1]) if f[-1].isdigit() else None
+            a, b = num(e, name), num(gl, name)
+            if a is None or b is None or abs(a - b) <= 100: continue
         nd += 1
         if nd <= 3: ctx.oblig('correspondence:sort key / distance / duration / unit vs Lean Codes', 'correspondence', False, '%s(%r): implementation %r, model %r' % (name, s, e, gl))
     ctx.count(len(reqs), 'function_lines')
@@ -92,6 +100,17 @@ def run(ctx):
             d = athlib.get_distance(s)
             if d != int(m.group(1)) * int(m.group(2)):
                 ctx.fail('athlib.get_distance', [s], 'legs x leg distance = %d' % (int(m.group(1)) * int(m.group(2))), repr(d), note='relay distance')
+        # kilometre codes with a decimal quantity: the distance is 1000 x the quantity (int(1000*float) may land 1 m below)
+        m = re.match(r'^(?:(\d{1,2})[xX])?(\d+)(?:\.(\d+))?(?:k|K|km)$', s)
+        if m and s.isascii():
+            from fractions import Fraction
+            q = Fraction(int(m.group(2) + (m.group(3) or '')), 10 ** len(m.group(3) or ''))
+            exact = int(1000 * q); legs = int(m.group(1)) if m.group(1) else 1
+            if not m.group(1) and fam(s) == 'track' and not (k[0] == 1 and exact - 1 <= k[1] <= exact):
+                ctx.fail('athlib.discipline_sort_key', [s], 'track, ordered by distance %d m' % exact, repr(k), note='track not ordered by distance')
+            d = athlib.get_distance(s)
+            if d is None or not (legs * (exact - 1) <= d <= legs * exact):
+                ctx.fail('athlib.get_distance', [s], ('legs x leg distance = %d' if m.group(1) else 'distance %d m') % (legs * exact), repr(d), note='relay distance' if m.group(1) else 'kilometre distance')
     conv = ['HJ', 'PV', 'LJ', 'TJ', 'SP', 'DT', 'HT', 'JT']
     ck = [athlib.discipline_sort_key(c) for c in conv]
     # jumps (3) before throws (4); within each, the conventional order
